@@ -3,6 +3,9 @@ import Abyss.Props.C06Bound
 import Abyss.Lemmas.AllocBytes
 import Abyss.Lemmas.PieceBytesVal
 import Abyss.Lemmas.PieceBytesKey
+import Abyss.Props.GenCorollaries2
+#print axioms Abyss.C06_generated_file_length_bounded
+#print axioms Abyss.C06_generated_slots_bounded
 #print axioms Abyss.C06_partition
 #print axioms Abyss.C06_tiling
 #print axioms Abyss.C06_no_overlap
